@@ -87,6 +87,8 @@ class Fixture:
         os.chmod(self.file, rng.choice([0o644, 0o755]))
         self.spec = fs.gen_tree(rng, max_depth=3, fanout=5, big=False)
         # make sure there are nested, hidden and pattern-named directories
+        # (a special file, at depth: the library counts it as an empty file)
+        self.spec["entries"].append([hx(b"pipes"), {"t": "dir", "entries": [[hx(b"fifo"), {"t": "special", "mode": 0o644}], [hx(b"reg"), {"t": "file", "mode": 0o600, "seed": 3, "size": 2}]]}])
         self.spec["entries"].append([hx(b".hid"), {"t": "dir", "entries": [[hx(b"inner"), {"t": "file", "mode": 0o644, "seed": 1, "size": 3}]]}])
         self.spec["entries"].append([hx(b"zsub"), {"t": "dir", "entries": [[hx(b"zsub"), {"t": "dir", "entries": [[hx(b"deep"), {"t": "file", "mode": 0o755, "seed": 2, "size": 9}]]}], [hx(b"dup"), {"t": "file", "mode": 0o644, "seed": 1, "size": 3}]]}])
         self.patterns = [[b".*"], [b"zsub"], [b"*sub"], [b".hid", b"zsub/zsub"], [b"nomatch*"], [b"z*"], [b".*", b"*sub"]][seed % 7]
